@@ -67,6 +67,12 @@ def main():
         small = {k: (v if len(json.dumps(v)) < 4000 else "<%d bytes>" % len(json.dumps(v))) for k, v in e.case.items()}
         ctx.violation("panic-%s" % e.obs.get("mode"), {"kind": "the implementation panicked (a helper of deserr called by the harness mode '%s')" % e.obs.get("mode"),
                                                       "harness_case": small, "panic_message": e.obs.get("impl_panic")})
+    except C.HarnessBuildFailed as e:
+        errs = [l for l in e.out.split("\n") if l.startswith("error") or l.strip().startswith("-->")]
+        ctx.violation("harness-build", {"kind": "correspondence cannot be established: %s - valid uses of the public API and derive inputs accepted by the "
+                                                "unchanged macro - no longer compiles against the repository's current tree" % e.what,
+                                        "theorem_or_correspondence": "corr_%s (the implementation side cannot be run)" % prop.lower(),
+                                        "rustc_errors": errs[:40], "rustc_output_tail": e.out[-4000:]}, no_input=True)
     except C.Broken as e:
         print("BROKEN CHECK %s: %s" % (prop, e))
         sys.exit(2)
